@@ -360,6 +360,32 @@ theorem forest_step {sys sys' : GSys} {op : GOp} (hall : ∀ g ∈ sys, IsForest
 theorem forest_reachable {ops : List GOp} {sys : GSys} (hleg : ∀ op ∈ ops, GLegal op)
     (h : gRun [gInit] ops = some sys) : ∀ g ∈ sys, IsForest g := Graph.forest_reachable hleg h
 
+/-- **the operations do not raise at the call sites' preconditions** (total correctness of `forest_*`): the
+index handed out is free and the children are distinct top-level clones (`create_root_node`); the subtree
+root is live and the numberings do not collide (`get_subtree`, `remove_subtree`); the parent is live and
+the copies' indices are free and distinct (`add_subtree`) -/
+theorem forest_ops_total {g : DG} (hf : IsForest g) :
+    (∀ new kids, new ∉ g.nodes → kids.Nodup → (∀ c ∈ kids, (0, c) ∈ g.edges) →
+      ∃ g', gCreateRootNode g new kids = some g' ∧ IsForest g') ∧
+    (∀ r, r ∈ g.nodes → r ≠ 0 → ∃ g', gRemoveSubtree g r = some g' ∧ IsForest g') ∧
+    (∀ r (ρ₁ ρ₂ : ℕ → ℕ), r ∈ g.nodes → (∀ a ∈ g.nodes, ∀ b ∈ g.nodes, ρ₂ (ρ₁ a) = ρ₂ (ρ₁ b) → a = b) →
+      (∀ a ∈ g.nodes, ρ₂ (ρ₁ a) ≠ 0) → ∃ g', gGetSubtree g r ρ₁ ρ₂ = some g' ∧ IsForest g') ∧
+    (∀ sub p (ρ : ℕ → ℕ), IsForest sub → p ∈ g.nodes → (sub.nodes.map ρ).Nodup → (∀ v ∈ sub.nodes, ρ v ∉ g.nodes) →
+      ∃ g', gAddSubtree g sub p ρ = some g' ∧ IsForest g') := by
+  refine ⟨fun new kids hnew hnd hk => ?_, fun r hr hr0 => ?_, fun r ρ₁ ρ₂ hr hinj hne => ?_,
+    fun sub p ρ hs hp hn hfresh => ?_⟩
+  · have hk' : ∀ c ∈ kids, c ∈ g.nodes ∧ (0, c) ∈ g.edges := fun c hc => ⟨(hf.edges_live _ (hk c hc)).2, hk c hc⟩
+    obtain ⟨g', hg'⟩ := Option.isSome_iff_exists.1 (Graph.gCreateRootNode_isSome hnew hf.root_live hnd hk')
+    exact ⟨g', hg', Graph.forest_createRootNode hf (fun c hc e => hnew (by rw [← e]; exact (hk' c hc).1)) hg'⟩
+  · obtain ⟨g', hg'⟩ := Option.isSome_iff_exists.1 (Graph.gRemoveSubtree_isSome hr)
+    exact ⟨g', hg', Graph.forest_removeSubtree hf hr0 hg'⟩
+  · obtain ⟨g', hg'⟩ := Option.isSome_iff_exists.1 (Graph.gGetSubtree_isSome (ρ₁ := ρ₁) (ρ₂ := ρ₂) hr
+      (fun a ha b hb _ _ h => hinj a ha b hb (congrArg ρ₂ h)) (fun a ha b hb _ _ h => hinj a ha b hb h)
+      (fun a ha _ => hne a ha) hf.nodes_nodup)
+    exact ⟨g', hg', Graph.forest_getSubtree hf hg'⟩
+  · obtain ⟨g', hg'⟩ := Option.isSome_iff_exists.1 (Graph.gAddSubtree_isSome hp hs.root_live hn hfresh)
+    exact ⟨g', hg', Graph.forest_addSubtree hf hs hg'⟩
+
 /-- what the invariant buys: the parent is unique, and there is no cycle (no node reaches itself along a
 non-empty path) -/
 theorem forest_parent_unique_acyclic {g : DG} (hf : IsForest g) :
